@@ -104,7 +104,7 @@ def _resub_job(spec):
     ctx = cat.Ctx(spec["seed"], None, False)
     s = ctx.s
     try:
-        ys, flags = cat.build_pipeline(ctx, spec["names"])
+        ys, flags = cat.build_pipeline(ctx, spec["names"], spec.get("form", "pipe"))
     except Exception as e:
         return spec, None, f"build:{type(e).__name__}"
     runs: List[List[Dict[str, Any]]] = [[], []]
@@ -140,13 +140,18 @@ def _resub_job(spec):
     return spec, (runs, subs, subs2), None
 
 
-def resub_pass(ck, seed: int, per_op: int) -> Dict[str, Any]:
-    """C04, differential: each non-multicasting catalogue operator with deterministic callbacks on a cold source."""
+def resub_pass(ck, seed: int, per_op: int, form: str = "pipe") -> Dict[str, Any]:
+    """C04, differential: each non-multicasting catalogue operator with deterministic callbacks on a cold source.
+    form="fluent" (C39): the same through the method form - what the method does to its arguments before handing them to
+    the operator (iter(), defaults, conversions) must not be shared between subscriptions either."""
     rnd = random.Random(seed)
     names = sorted(n for n in cat.CATALOGUE if n not in MULTICAST and n not in NONDET)
+    if form == "fluent":
+        from reactivex import Observable
+        names = [n for n in names if hasattr(Observable, cat.REAL_NAME.get(n, n))]
     # sequential (second subscription after the first run is over) and overlapping (a few ticks later, while the first
     # subscriber's timers and inner subscriptions are pending)
-    specs = [dict(seed=rnd.randrange(10 ** 9), names=[n], second_at=sa) for n in names for _ in range(per_op)
+    specs = [dict(seed=rnd.randrange(10 ** 9), names=[n], second_at=sa, form=form) for n in names for _ in range(per_op)
              for sa in (1500, rnd.choice([203, 207, 212, 218, 226]))]
     res = core.parallel_map(_resub_job, specs, procs=10, chunk=40)
     compared = skipped = 0
